@@ -1,5 +1,6 @@
 import Vflow.Props.C01Sflow
 import Vflow.Props.C02Flow
+import Vflow.Props.C02Sflow
 import Vflow.Gen.Sites
 import Vflow.Spec.Sites
 import Vflow.Gen.JsonWrites
@@ -93,5 +94,112 @@ theorem panic_sites_reviewed : Gen.Sites.panicSites = Spec.Sites.panicSites := b
 /-- non-vacuity: a malformed payload (set length 3) is rejected, a well-formed empty message is decoded -/
 example : (Ipfix.decode [] [10,0,0,1] [0,10,0,20,0,0,0,0,0,0,0,1,0,0,0,0,1,0,0,3,9,9]).1 = .error .badSetLen := by rfl
 example : (Ipfix.decode [] [10,0,0,1] [0,10,0,16,0,0,0,0,0,0,0,1,0,0,0,0]).1 = .ok ([10,16,0,1,0], [], []) := by rfl
+
+/-! ## Histories: any sequence of payloads on the four ports -/
+
+/-- one UDP payload arriving on one of the four ports (`addr` = the exporter's address as the listener reports it) -/
+inductive Payload where
+  | ipfix (addr bs : Bytes)
+  | v9 (addr bs : Bytes)
+  | v5 (bs : Bytes)
+  | sflow (bs : Bytes)
+
+/-- the two template caches of the process -/
+structure Caches where
+  ipfix : Cache
+  v9 : Cache
+
+/-- what processing one payload can come to: `crashed` stands for a panic or a decode that never returns -/
+inductive Outcome where
+  | decoded | rejected | crashed
+deriving DecidableEq, Repr
+
+def flowOutcome {α : Type} : Except Err α → Outcome
+  | .ok _ => .decoded
+  | .error .fuel => .crashed
+  | .error _ => .rejected
+
+def sflowOutcome {α : Type} : Sflow.Res α → Outcome
+  | .ok _ => .decoded
+  | .err _ => .rejected
+  | .panic => .crashed
+  | .fuel => .crashed
+
+/-- the collector processing one payload with sFlow type filter `f`: the outcome and the caches afterwards -/
+def process (f : List Nat) (cs : Caches) : Payload → Outcome × Caches
+  | .ipfix addr bs => (flowOutcome (Ipfix.decode cs.ipfix addr bs).1, { cs with ipfix := (Ipfix.decode cs.ipfix addr bs).2 })
+  | .v9 addr bs => (flowOutcome (V9.decode cs.v9 addr bs).1, { cs with v9 := (V9.decode cs.v9 addr bs).2 })
+  | .v5 bs => ((match V5.decode bs with | .ok _ => .decoded | .error _ => .rejected), cs)
+  | .sflow bs => (sflowOutcome (Sflow.decode f bs), cs)
+
+/-- the outcomes of a sequence of payloads, each processed with the caches the earlier ones left -/
+def outcomes (f : List Nat) (cs : Caches) : List Payload → List Outcome
+  | [] => []
+  | p :: ps => (process f cs p).1 :: outcomes f (process f cs p).2 ps
+
+/-- one payload, whatever the caches: decoded or rejected -/
+theorem process_ne_crashed (f : List Nat) (cs : Caches) (p : Payload) : (process f cs p).1 ≠ .crashed := by
+  cases p with
+  | ipfix addr bs =>
+    simp only [process]
+    rcases ipfix_decoded_or_rejected cs.ipfix addr bs with ⟨m, h⟩ | ⟨e, h, he⟩
+    · rw [h]; simp [flowOutcome]
+    · rw [h]; cases e <;> simp_all [flowOutcome]
+  | v9 addr bs =>
+    simp only [process]
+    rcases v9_decoded_or_rejected cs.v9 addr bs with ⟨m, h⟩ | ⟨e, h, he⟩
+    · rw [h]; simp [flowOutcome]
+    · rw [h]; cases e <;> simp_all [flowOutcome]
+  | v5 bs => simp only [process]; cases V5.decode bs <;> simp
+  | sflow bs =>
+    simp only [process]
+    have h1 := C01Sflow.decode_ne_panic f bs
+    have h2 := C02Sflow.decode_ne_fuel f bs
+    cases h : Sflow.decode f bs <;> simp_all [sflowOutcome]
+
+/-- **C01 (histories, all four ports)**: for every finite sequence of payloads arriving in any order on the IPFIX,
+NetFlow v9, NetFlow v5 and sFlow ports from any exporter addresses, starting from any caches (the empty ones of a fresh
+start, or the ones loaded from a cache file), and every sFlow type filter, each payload is decoded or rejected — none
+panics or runs forever, whatever templates the earlier payloads have installed.  By induction over the sequence from
+the four per-payload theorems (which hold for *every* cache, reachable or not). -/
+theorem history_never_crashes (f : List Nat) (cs : Caches) (ps : List Payload) :
+    ∀ o ∈ outcomes f cs ps, o = .decoded ∨ o = .rejected := by
+  induction ps generalizing cs with
+  | nil => intro o h; simp [outcomes] at h
+  | cons p ps ih =>
+    intro o h
+    simp only [outcomes, List.mem_cons] at h
+    rcases h with h | h
+    · have := process_ne_crashed f cs p
+      subst h; cases hp : (process f cs p).1 <;> simp_all
+    · exact ih _ o h
+
+/-- every payload of the sequence has an outcome (processing goes on after a rejected payload) -/
+theorem history_outcomes_length (f : List Nat) (cs : Caches) (ps : List Payload) :
+    (outcomes f cs ps).length = ps.length := by
+  induction ps generalizing cs with
+  | nil => rfl
+  | cons p ps ih => simp [outcomes, ih]
+
+
+/-- a template set (id 256: one field, element 4 in one octet) and a data set for it -/
+def tmplMsg : Bytes := [0,10,0,28, 0,0,0,0, 0,0,0,1, 0,0,0,0, 0,2,0,12, 1,0,0,1, 0,4,0,1]
+def dataMsg : Bytes := [0,10,0,21, 0,0,0,0, 0,0,0,2, 0,0,0,0, 1,0,0,5, 17]
+
+set_option maxRecDepth 20000 in
+/-- non-vacuity: a history over all four ports with malformed payloads, and one in which the template installed by an
+earlier payload selects the decode path of a later one (no record before it, one record after it, none for another
+exporter) -/
+example : outcomes [] ⟨[], []⟩
+    [.ipfix [10,0,0,1] [0,10,0,20,0,0,0,0,0,0,0,1,0,0,0,0,1,0,0,3,9,9],
+     .ipfix [10,0,0,1] [0,10,0,16,0,0,0,0,0,0,0,1,0,0,0,0],
+     .v9 [10,0,0,1] [0,9], .v5 [0,5,0,1], .sflow [0,0,0,5, 0,0,0,1]] =
+    [.rejected, .decoded, .rejected, .rejected, .rejected] ∧
+    (Ipfix.decode [] [10,0,0,1] dataMsg).1 = .ok ([10, 21, 0, 2, 0], [], [.unknownTpl]) ∧
+    (Ipfix.decode (process [] ⟨[], []⟩ (.ipfix [10,0,0,1] tmplMsg)).2.ipfix [10,0,0,1] dataMsg).1 =
+      .ok ([10, 21, 0, 2, 0], [[⟨4, 0, .u8 17⟩]], []) ∧
+    (Ipfix.decode (process [] ⟨[], []⟩ (.ipfix [10,0,0,1] tmplMsg)).2.ipfix [10,0,0,2] dataMsg).1 =
+      .ok ([10, 21, 0, 2, 0], [], [.unknownTpl]) := by
+  refine ⟨by rfl, by rfl, by rfl, by rfl⟩
 
 end Vflow.C01
